@@ -26,8 +26,8 @@ RULE = ("subsets: every non-empty subset of <= 3 (quick) / <= 4 (thorough) of th
         "the case (edge order and orientation included).")
 ASSUMPTIONS = [
     "oracle = vcheck/device.py: own transcription of the Surface-17 graph (from the plaquette geometry) and idle levels "
-    "(D4 D5 D6 high, other data low, ancillas mid); validated against Surface17Layer's public qubit/edge listing once "
-    "per process - a mismatch is a harness error, not a violation",
+    "(D4 D5 D6 high, other data low, ancillas mid); compared with Surface17Layer's public qubit/edge listing once "
+    "per process - a difference is reported as a violation (part device_table: acceptance is stated for the Surface-17 layout, a layer that lists other edges is another device) and the other parts are skipped",
     "accept <=> gates pairwise qubit-disjoint and no two neighbouring qubits of different gates share an operating level "
     "(operating level of a gate = idle level of its lower-frequency member); idle qubits never block acceptance "
     "because they can be parked",
@@ -62,10 +62,28 @@ def _edge_names(edge_id) -> Tuple[str, str]:
 
 
 # ---------------------------------------------------------------------------------------------------
+# the layout itself: 17 qubits and the 24 edges of the plaquette geometry (every verdict below refers to this device)
+# ---------------------------------------------------------------------------------------------------
+def items_device_table(tier):
+    yield {"layout": "Surface17Layer"}
+
+
+def body_device_table(case, ctx):
+    ctx.case(case, nontrivial=True, classes=["device_table"])
+    msg = None
+    with ctx.lib("Surface17Layer listing"):
+        msg = D.table_mismatch()
+    if msg:
+        ctx.fail("device-table", msg)
+
+
+# ---------------------------------------------------------------------------------------------------
 # acceptance + parking on one gate set
 # ---------------------------------------------------------------------------------------------------
 def body_subset(case, ctx):
-    D.validate_against_library()
+    if D.table_mismatch():
+        ctx.case(case, nontrivial=False, classes=["skipped:device-table-mismatch"])     # reported by part device_table
+        return
     Surface17Layer, get_requires_parking, GateSequenceGenerator, Operation, EdgeIDObj, QubitIDObj = _lib()
     gates = [tuple(g) for g in case["gates"]]
     disjoint = D.qubit_disjoint(gates)
@@ -121,7 +139,9 @@ def strat_touch():
 
 
 def body_touch(case, ctx):
-    D.validate_against_library()
+    if D.table_mismatch():
+        ctx.case(case, nontrivial=False, classes=["skipped:device-table-mismatch"])     # reported by part device_table
+        return
     Surface17Layer, get_requires_parking, GateSequenceGenerator, Operation, EdgeIDObj, QubitIDObj = _lib()
     layer = Surface17Layer()
     ctx.case(case, nontrivial=any(t["api"] in ("get_neighbors", "get_edges") for t in case["touch"]),
@@ -282,7 +302,9 @@ def strat_generator():
 
 
 def body_generator(case, ctx):
-    D.validate_against_library()
+    if D.table_mismatch():
+        ctx.case(case, nontrivial=False, classes=["skipped:device-table-mismatch"])     # reported by part device_table
+        return
     Surface17Layer, get_requires_parking, GateSequenceGenerator, Operation, EdgeIDObj, QubitIDObj = _lib()
     requested = [D.edge(*e) for e in case["edges"]]
     n, s = len(requested), case["size"]
@@ -355,6 +377,7 @@ def items_generator_big(tier):
 
 def parts():
     return [
+        Part("device_table", body_device_table, items=items_device_table, exhaustive=True),
         Part("subsets", body_subset, items=items_subsets, exhaustive=True),
         Part("large_subsets", body_subset, strategy=strat_large, quick=500, thorough=3000),
         Part("caller_owned_results", body_touch, strategy=strat_touch, quick=30, thorough=300),
